@@ -2,6 +2,7 @@ package scen
 
 import (
 	"bytes"
+	"crypto/rsa"
 	"fmt"
 	"io"
 	"math/big"
@@ -19,7 +20,7 @@ import (
 
 var scriptFaults = []string{"replace-type", "duplicate", "omit", "truncate-body", "truncate-body+close", "set-byte", "handshake-length", "insert-record", "close-before", "close-inside", "stall", "fragment(legal)", "coalesce(legal)", "replace-body", "record-version", "oversize-record", "warning-alerts", "empty-record", "length-field", "plaintext-finished",
 	"hello-version", "hello-suites", "hello-compression", "server-bad-selection", "server-cert-list", "deadline", "crafted-key-exchange", "malformed-extensions", "cert-message-omitted"}
-var scriptReach = []string{"honest-client-vs-gm-server", "honest-client-vs-auto-server", "honest-server-vs-gm-client", "must-complete-completed", "must-fail-failed", "unspecified-ok", "eut-client", "eut-server-gm", "eut-server-auto", "eut-server-tls", "alert-from-eut", "timeout-at-deadline", "legit-wait", "client-auth-path", "dev-in-client-flight", "dev-in-server-flight", "dev-after-ccs"}
+var scriptReach = []string{"honest-client-vs-gm-server", "honest-client-vs-auto-server", "honest-server-vs-gm-client", "must-complete-completed", "must-fail-failed", "unspecified-ok", "eut-client", "eut-server-gm", "eut-server-auto", "eut-server-tls", "alert-from-eut", "timeout-at-deadline", "legit-wait", "client-auth-path", "dev-in-client-flight", "dev-in-server-flight", "dev-after-ccs", "scripted-tls12-peer", "honest-tls12-client-vs-auto-server", "honest-tls12-client-vs-tls-server", "honest-tls12-server-vs-tls-client"}
 
 func init() {
 	register(Family{Name: "tls-scripted-peer", Prop: "C15", ID: 1501, Weight: 1, FaultNames: scriptFaults, ReachNames: scriptReach, Run: runScriptedPeer})
@@ -33,6 +34,7 @@ const (
 
 type scriptRun struct {
 	EUTServer  bool // endpoint under test is the server
+	TLS        bool // the scripted peer speaks TLS 1.2 with RSA key exchange instead of GM/T 0024
 	SMode      int  // server mode when the EUT is the server
 	Suite      uint16
 	ClientAuth bool
@@ -56,7 +58,14 @@ type scriptRun struct {
 }
 
 // number of outgoing units of the honest peer (for drawing At)
-func honestUnits(eutServer, clientAuth bool) int {
+func honestUnits(eutServer, clientAuth, tls bool) int {
+	if !eutServer && tls {
+		// scripted TLS server: SH Cert [CR] SHD | CCS Fin
+		if clientAuth {
+			return 6
+		}
+		return 5
+	}
 	if eutServer {
 		// scripted client: CH | [Cert] CKX [CV] CCS Fin
 		if clientAuth {
@@ -183,14 +192,23 @@ func runScriptedPeer(c *simkit.Choice, r *simkit.Rec) {
 	if sr.EUTServer {
 		sr.SMode = c.Weighted([]int{4, 3, 1}, simkit.LScen)
 	}
+	sr.TLS = c.Bool(1, 3, simkit.LScen)
+	if sr.TLS {
+		sr.Suite = tlsRefSuites[c.Choose(len(tlsRefSuites), simkit.LScen)]
+		if sr.EUTServer {
+			sr.SMode = c.Weighted([]int{1, 6, 6}, simkit.LScen)
+		}
+	}
+	// a GM-only server never completes with a TLS client, nor a TLS-only server with a GM client
+	mismatch := sr.EUTServer && ((sr.SMode == modeTLS && !sr.TLS) || (sr.SMode == modeGM && sr.TLS))
 	sr.Expect = expComplete
 	sr.Why = "honest"
-	units := honestUnits(sr.EUTServer, sr.ClientAuth)
+	units := honestUnits(sr.EUTServer, sr.ClientAuth, sr.TLS)
 	class := c.Weighted([]int{2, 10, 3, 2}, simkit.LScen) // honest, wire deviations, hello/selection content, deadline
 	crafted := false
 	malformedExt := false
-	if sr.EUTServer && sr.SMode == modeTLS && class != 2 {
-		class = 2 // a TLS-only server only ever sees the ClientHello of the GM scripted client
+	if mismatch && class != 2 {
+		class = 2 // the server only ever sees the ClientHello of a client of the other protocol family
 	}
 	switch class {
 	case 1:
@@ -202,6 +220,10 @@ func runScriptedPeer(c *simkit.Choice, r *simkit.Rec) {
 				// only where the next unit is a handshake message of the same flight
 				var ok []int
 				switch {
+				case !sr.EUTServer && sr.TLS && sr.ClientAuth:
+					ok = []int{0, 1, 2} // SH Cert CR | SHD
+				case !sr.EUTServer && sr.TLS:
+					ok = []int{0, 1} // SH Cert | SHD
 				case !sr.EUTServer && sr.ClientAuth:
 					ok = []int{0, 1, 2, 3} // SH Cert SKX CR | SHD
 				case !sr.EUTServer:
@@ -283,6 +305,41 @@ func runScriptedPeer(c *simkit.Choice, r *simkit.Rec) {
 				sr.Why = fmt.Sprintf("ClientHello with %d malformed well-known extensions", len(sr.ExtraExts))
 				malformedExt = true
 			case 4:
+				if sr.TLS {
+					// ClientKeyExchange whose RSA ciphertext is malformed or decrypts to something
+					// that is not a pre-master secret (RFC 5246 §7.4.7.1: continue with a random
+					// secret, so the failure shows at Finished)
+					kind := c.Choose(6, simkit.LFault)
+					var ct []byte
+					switch kind {
+					case 0:
+						ct = nil
+					case 1:
+						ct = drawData(c, c.Range(1, 255, simkit.LFault))
+					case 2:
+						ct = drawData(c, 256)
+						ct[0] &= 0x7f
+					case 3:
+						ct = bytes.Repeat([]byte{0xff}, 256) // >= modulus
+					case 4:
+						ct = drawData(c, 257+c.Choose(40, simkit.LFault))
+					case 5:
+						ct = make([]byte, 256) // zero
+					}
+					body := reftls.Vec16Body(ct)
+					if kind == 1 && c.Bool(1, 2, simkit.LFault) {
+						body = ct // no length prefix at all
+					}
+					at := 1
+					if sr.ClientAuth {
+						at = 2
+					}
+					sr.Devs = []*reftls.Dev{{At: at, Kind: reftls.DevReplaceBody, RecBody: body}}
+					sr.Expect = expFail
+					sr.Why = fmt.Sprintf("ClientKeyExchange with a malformed RSA ciphertext (kind %d)", kind)
+					crafted = true
+					break
+				}
 				// ClientKeyExchange carrying a malformed GM/T 0009 SM2Cipher structure
 				var x, y *big.Int = big.NewInt(1), big.NewInt(2)
 				hash := drawData(c, 32)
@@ -332,12 +389,32 @@ func runScriptedPeer(c *simkit.Choice, r *simkit.Rec) {
 					sr.Expect = expFail
 				}
 				sr.Why = fmt.Sprintf("ClientHello version %04x", sr.Vers)
+				if sr.TLS {
+					// TLS 1.2 is the only TLS version the scripted client can carry on with: a
+					// lower selection makes it end the stream after the ServerHello
+					sr.Why = fmt.Sprintf("TLS ClientHello version %04x", sr.Vers)
+					switch {
+					case sr.Vers == 0x0303:
+						sr.Expect = expComplete
+					case sr.Vers > 0x0303:
+						sr.Expect = expAny // RFC 5246 appendix E: answer with the highest supported version
+					default:
+						sr.Expect = expFail
+					}
+					break
+				}
 				if sr.SMode != modeGM && c.Bool(2, 3, simkit.LFault) {
 					// offer RSA key-exchange TLS suites too, so that a TLS-capable server
 					// gets past suite selection with this version number
 					sr.Suites = []uint16{0x002f, 0x0035, 0x009c, sr.Suite}
 					sr.Why += " with TLS suites"
 					if sr.Vers == 0x0101 {
+						sr.Expect = expAny
+					}
+					if sr.Vers >= 0x0303 {
+						// a TLS-capable server may select TLS 1.2 with an RSA suite, which the
+						// scripted client then carries through
+						mismatch = false
 						sr.Expect = expAny
 					}
 				}
@@ -355,6 +432,11 @@ func runScriptedPeer(c *simkit.Choice, r *simkit.Rec) {
 					sr.Suites = []uint16{0xe011, 0xe051}
 					sr.Expect = expFail
 					sr.Why = "only ECDHE-SM2 suites"
+					if sr.TLS {
+						// the scripted client cannot do ECDHE: it ends the stream at the ServerKeyExchange
+						sr.Suites = []uint16{0xc02f, 0xc013, 0xc02b}
+						sr.Why = "only ECDHE suites, peer closes at ServerKeyExchange"
+					}
 				case 3:
 					sr.Suites = []uint16{0x1234, sr.Suite, 0x00ff, 0xfffe}
 					sr.Expect = expComplete
@@ -363,6 +445,10 @@ func runScriptedPeer(c *simkit.Choice, r *simkit.Rec) {
 					sr.Suites = []uint16{0xe011, sr.Suite}
 					sr.Expect = expAny // client prefers the unimplemented ECDHE suite
 					sr.Why = "ECDHE first, then implemented suite"
+					if sr.TLS {
+						sr.Suites = []uint16{0xe013, 0xe053, sr.Suite}
+						sr.Why = "GM suites offered in a TLS 1.2 hello, then an RSA suite"
+					}
 				}
 			case 2:
 				if c.Bool(1, 2, simkit.LFault) {
@@ -379,28 +465,55 @@ func runScriptedPeer(c *simkit.Choice, r *simkit.Rec) {
 				sr.Expect = expComplete
 				sr.Why = "unknown extension (legal)"
 			}
-			if sr.SMode == modeTLS {
-				sr.Expect = expFail // GM client against a TLS-only server can never complete
-				if sr.Vers >= 0x0301 && sr.Vers <= 0x0303 {
-					sr.Expect = expFail // the scripted client cannot continue a TLS handshake: it closes
-				}
+			if mismatch {
+				sr.Expect = expFail
 			}
 		} else {
-			switch c.Choose(4, simkit.LFault) {
-			case 0:
+			sub := c.Choose(4, simkit.LFault)
+			switch {
+			case sub == 0 && sr.TLS:
+				// (a lower TLS version is a legal selection, but the scripted server goes on
+				// with TLS 1.2 key derivation, so the Finished values cannot agree)
+				sr.SrvVers = []uint16{0x0101, 0x0301, 0x0302, 0x0304, 0x0300, 0x0001, 0x0403}[c.Choose(7, simkit.LFault)]
+				sr.Why = fmt.Sprintf("TLS ServerHello version %04x", sr.SrvVers)
+			case sub == 1 && sr.TLS:
+				sr.SrvChoose = []uint16{0xc02f, 0x1234, 0xe013, 0}[c.Choose(4, simkit.LFault)]
+				if sr.SrvChoose == 0 {
+					sr.SrvChoose = tlsRefSuites[0]
+					if sr.Suite == sr.SrvChoose {
+						sr.SrvChoose = tlsRefSuites[1]
+					}
+				}
+				sr.Why = fmt.Sprintf("TLS ServerHello selects suite %04x which was not offered", sr.SrvChoose)
+			case sub == 3 && sr.TLS:
+				switch c.Choose(4, simkit.LFault) {
+				case 0:
+					sr.SrvCertList = [][]byte{pki.DER("tlsp256"), pki.DER("rsaCA")}
+					sr.Why = "RSA key exchange with an ECDSA certificate"
+				case 1:
+					sr.SrvCertList = [][]byte{pki.DER("srv-sign"), pki.DER("srv-enc")}
+					sr.Why = "RSA key exchange with SM2 certificates"
+				case 2:
+					sr.SrvCertList = [][]byte{}
+					sr.Why = "empty certificate list"
+				case 3:
+					sr.SrvCertList = [][]byte{pki.DER("tlsrsa")[:200]}
+					sr.Why = "truncated certificate"
+				}
+			case sub == 0:
 				sr.SrvVers = []uint16{0x0100, 0x0301, 0x0303, 0x0102, 0x0001}[c.Choose(5, simkit.LFault)]
 				sr.Why = fmt.Sprintf("ServerHello version %04x", sr.SrvVers)
-			case 1:
+			case sub == 1:
 				sr.SrvChoose = []uint16{0xe011, 0x1234, 0}[c.Choose(3, simkit.LFault)]
 				if sr.SrvChoose == 0 {
 					// the other implemented suite, which the client did not offer
 					sr.SrvChoose = gmSuites[0] + gmSuites[1] - sr.Suite
 				}
 				sr.Why = fmt.Sprintf("ServerHello selects suite %04x which was not offered", sr.SrvChoose)
-			case 2:
+			case sub == 2:
 				sr.SrvCompress = 1
 				sr.Why = "ServerHello selects compression 1"
-			case 3:
+			case sub == 3:
 				switch c.Choose(4, simkit.LFault) {
 				case 0:
 					sr.SrvCertList = [][]byte{pki.DER("srv-sign")}
@@ -462,8 +575,21 @@ func runScriptedPeer(c *simkit.Choice, r *simkit.Rec) {
 			if sr.ClientAuth {
 				cfg.ClientAuth = gmtls.RequireAndVerifyClientCert
 				cfg.ClientCAs = pki.Pool("caA")
+				if sr.TLS {
+					cfg.ClientCAs = pki.Pool("rsaCA")
+				}
+			}
+			if sr.TLS && sr.Suite == reftls.SuiteRSAAES128CBC2 {
+				// off by default in the Go lineage: list it
+				cfg.CipherSuites = append([]uint16{sr.Suite}, tlsRefSuites...)
 			}
 			conn = gmtls.Server(eutRaw, cfg)
+		} else if sr.TLS {
+			cfg := &gmtls.Config{Rand: entE, Time: simTime(s, 0), RootCAs: pki.Pool("rsaCA"), ServerName: "server.sim", CipherSuites: []uint16{sr.Suite}}
+			if sr.ClientAuth {
+				cfg.Certificates = []gmtls.Certificate{pki.GMStd("tlsclirsa")}
+			}
+			conn = gmtls.Client(eutRaw, cfg)
 		} else {
 			cfg := &gmtls.Config{GMSupport: gmtls.NewGMSupport(), Rand: entE, Time: simTime(s, 0), RootCAs: pki.Pool("caA"), ServerName: "server.sim", CipherSuites: []uint16{sr.Suite}}
 			if sr.ClientAuth {
@@ -524,7 +650,23 @@ func runScriptedPeer(c *simkit.Choice, r *simkit.Rec) {
 			if sr.ClientAuth {
 				cfg.Cert = &reftls.Identity{Chain: [][]byte{pki.DER("cli")}, Key: pki.D("cli")}
 			}
+			if sr.TLS {
+				if !sr.VersSet {
+					cfg.Vers, cfg.VersSet = reftls.VersionTLS12, true
+				}
+				if sr.ClientAuth {
+					cfg.Cert = &reftls.Identity{Chain: [][]byte{pki.DER("tlsclirsa")}, RSA: refRSA("tlsclirsa")}
+				}
+			}
 			peerRes, peerErr = reftls.ClientHandshake(pc, cfg)
+		} else if sr.TLS {
+			cfg := &reftls.ServerCfg{Rand: entP, Suites: []uint16{sr.Suite}, TLS12: true,
+				Sign:        &reftls.Identity{Chain: [][]byte{pki.DER("tlsrsa")}, RSA: refRSA("tlsrsa")},
+				RequestCert: sr.ClientAuth, VerifyClient: true, Vers: sr.SrvVers, ChooseSuite: sr.SrvChoose, Compression: sr.SrvCompress, CertList: sr.SrvCertList}
+			if sr.ClientAuth {
+				cfg.CAs = [][]byte{reftls.SubjectFromCert(pki.DER("rsaCA"))}
+			}
+			peerRes, peerErr = reftls.ServerHandshake(pc, cfg)
 		} else {
 			cfg := &reftls.ServerCfg{Rand: entP, Suites: []uint16{sr.Suite},
 				Sign:        &reftls.Identity{Chain: [][]byte{pki.DER("srv-sign")}, Key: pki.D("srv-sign")},
@@ -551,6 +693,9 @@ func runScriptedPeer(c *simkit.Choice, r *simkit.Rec) {
 	r.Nontrivial = sr.Why != "honest"
 
 	role := "client"
+	if sr.TLS {
+		r.Reach(idx(scriptReach, "scripted-tls12-peer"))
+	}
 	if sr.EUTServer {
 		role = []string{"server-gm", "server-auto", "server-tls"}[sr.SMode]
 		r.Reach(idx(scriptReach, []string{"eut-server-gm", "eut-server-auto", "eut-server-tls"}[sr.SMode]))
@@ -607,6 +752,9 @@ func runScriptedPeer(c *simkit.Choice, r *simkit.Rec) {
 	if pc != nil {
 		sent = pc.SentUnits
 	}
+	if sr.TLS {
+		role += "/tls12peer"
+	}
 	r.Config = role + "/" + fmt.Sprintf("%04x", sr.Suite)
 	r.SigStr(role + sr.Why)
 	r.Detail = map[string]interface{}{"eut": role, "suite": fmt.Sprintf("%04x", sr.Suite), "client_auth": sr.ClientAuth, "script": sr.Why, "deviations": devDesc, "peer_sent": sent,
@@ -662,8 +810,8 @@ func runScriptedPeer(c *simkit.Choice, r *simkit.Rec) {
 				expect = expFail
 			}
 		}
-		if sr.EUTServer && sr.SMode == modeTLS {
-			expect = expFail // a GMSSL client can never complete with a TLS-only server
+		if mismatch {
+			expect = expFail // a GMSSL client can never complete with a TLS-only server, nor a TLS client with a GMSSL-only one
 		}
 	}
 	// a set-byte that rewrote a byte with its own value, or deviations only after
@@ -734,7 +882,11 @@ func runScriptedPeer(c *simkit.Choice, r *simkit.Rec) {
 		}
 		r.Reach(idx(scriptReach, "must-complete-completed"))
 		if sr.Why == "honest" {
-			if sr.EUTServer {
+			if sr.TLS && sr.EUTServer {
+				r.Reach(idx(scriptReach, []string{"honest-tls12-client-vs-auto-server", "honest-tls12-client-vs-auto-server", "honest-tls12-client-vs-tls-server"}[sr.SMode]))
+			} else if sr.TLS {
+				r.Reach(idx(scriptReach, "honest-tls12-server-vs-tls-client"))
+			} else if sr.EUTServer {
 				r.Reach(idx(scriptReach, []string{"honest-client-vs-gm-server", "honest-client-vs-auto-server", "honest-client-vs-gm-server"}[sr.SMode]))
 			} else {
 				r.Reach(idx(scriptReach, "honest-server-vs-gm-client"))
@@ -762,6 +914,17 @@ func runScriptedPeer(c *simkit.Choice, r *simkit.Rec) {
 			}
 		}
 	}
+}
+
+var tlsRefSuites = []uint16{reftls.SuiteRSAAES128CBC, reftls.SuiteRSAAES128GCM, reftls.SuiteRSAAES256CBC, reftls.SuiteRSAAES256GCM, reftls.SuiteRSAAES128CBC2}
+
+// refRSA returns a fixture RSA key in the reference's form.
+func refRSA(name string) *reftls.RSAKey {
+	k, ok := pki.StdKey(name).(*rsa.PrivateKey)
+	if !ok {
+		panic("fixture " + name + " is not an RSA key")
+	}
+	return reftls.RSAFromStd(k)
 }
 
 // isTimeout reports whether err, or anything it wraps, is a timeout error.
